@@ -129,8 +129,60 @@ func (c15Auth) Authenticate(ctx context.Context, sources map[string][]string) (c
 			return ctx, nil
 		}
 	}
-	return ctx, errors.New("c15: not authenticated")
+	return ctx, c15AuthError()
 }
+
+// ---- the SHAPE of the authenticator's rejection (a generator dimension of the auth cases) ----
+// Whatever error the authenticator returns — a plain error, a gRPC status error of any code (a remote token service being
+// Unavailable / DeadlineExceeded, a PermissionDenied, …), a wrapped status, an error type with a GRPCStatus() method (even one
+// reporting OK) — an unauthenticated request must get the protocol's client-error status, must not reach the consumer and must
+// not look retryable (let alone successful) to the sender.
+
+var (
+	c15AuthMu    sync.Mutex
+	c15AuthShape = "plain"
+)
+
+func c15SetAuthShape(sh string) {
+	c15AuthMu.Lock()
+	c15AuthShape = sh
+	c15AuthMu.Unlock()
+}
+
+// c15GS: an error that carries its gRPC status through the GRPCStatus() method only
+type c15GS struct{ code codes.Code }
+
+func (e c15GS) Error() string              { return fmt.Sprintf("c15: token service said %s", e.code) }
+func (e c15GS) GRPCStatus() *status.Status { return status.New(e.code, "c15 authenticator status") }
+
+func c15AuthError() error {
+	c15AuthMu.Lock()
+	sh := c15AuthShape
+	c15AuthMu.Unlock()
+	parts := strings.Split(sh, ":")
+	code := codes.Unauthenticated
+	if len(parts) > 1 {
+		n, _ := strconv.Atoi(parts[1])
+		code = codes.Code(n)
+	}
+	switch parts[0] {
+	case "st": // a status error of that code
+		return status.Error(code, "c15: rejected by the token service")
+	case "stri": // … carrying RetryInfo
+		st, _ := status.New(code, "c15: rejected, retry later").WithDetails(&errdetails.RetryInfo{RetryDelay: durationpb.New(2 * time.Second)})
+		return st.Err()
+	case "wrap": // a status error wrapped with %w
+		return fmt.Errorf("c15 auth: %w", status.Error(code, "c15: inner"))
+	case "perm": // … wrapped into a consumererror.Permanent
+		return consumererror.NewPermanent(status.Error(code, "c15: inner"))
+	case "gs": // GRPCStatus() method only (code 0 = OK: status.Err() of it is nil)
+		return c15GS{code}
+	}
+	return errors.New("c15: not authenticated")
+}
+
+var c15AuthShapes = []string{"plain", "plain", "st:16", "st:7", "st:14", "st:4", "st:1", "st:8", "st:13", "st:2", "st:10", "st:15", "st:11", "st:99",
+	"stri:14", "stri:8", "wrap:14", "wrap:4", "wrap:7", "perm:14", "gs:0", "gs:14", "gs:4", "gs:16", "gs:7"}
 
 type c15Host struct {
 	ext map[component.ID]component.Component
@@ -572,6 +624,7 @@ type c15Case struct {
 	auth  string   // off good bad
 	recv  string   // raw only: "small" = the receiver with max_request_body_size 4096
 	fk    *c15Fake // a sender-side case against the scripted fake servers
+	ae    string   // auth=bad: the shape of the authenticator's error ("" = random), see c15AuthError
 	ovl   string   // != "": an overlap case (compression of the senders, or "mixed"); conc = number of overlapping exports
 	conc  int      // > 0: a concurrency case with that many overlapping senders (monitor)
 	kind  string   // raw only
@@ -989,6 +1042,17 @@ func TestVerifC15(t *testing.T) {
 		fk := fk
 		corpus = append(corpus, c15Case{fk: &fk, auth: "off"})
 	}
+	// unauthenticated requests with every shape of authenticator error, both transports (send through the real exporter + raw)
+	for i, sh := range []string{"plain", "st:16", "st:7", "st:14", "st:4", "st:8", "st:13", "st:99", "stri:14", "stri:8", "wrap:14", "wrap:4", "perm:14", "gs:0", "gs:14", "gs:4", "gs:7"} {
+		for _, tr := range []string{"grpc", "http"} {
+			enc := "pb"
+			if tr == "grpc" {
+				enc = "-"
+			}
+			corpus = append(corpus, c15Case{tr: tr, enc: enc, comp: "none", sig: c15Sigs[i%3], items: 2, out: c15Outcome{kind: "ok"}, auth: "bad", ae: sh})
+		}
+		corpus = append(corpus, c15Case{raw: true, tr: "grpc", kind: "fine", sig: c15Sigs[i%3], out: c15Outcome{kind: "ok"}, auth: "bad", ae: sh})
+	}
 	// overlap corpus: after a warm-up export, 2-4 real exporters whose body reads overlap for certain (proxy barrier), every compression
 	for i, comp := range append(append([]string{}, c15HTTPComps...), "mixed", "gzip") {
 		corpus = append(corpus, c15Case{ovl: comp, conc: 2 + i%3, auth: "off"})
@@ -1022,6 +1086,16 @@ func TestVerifC15(t *testing.T) {
 			r = small
 		}
 		good := c.auth == "good"
+		ae := "-"
+		if c.auth == "bad" {
+			ae = c.ae
+			if ae == "" {
+				ae = c15AuthShapes[rnd.IntN(len(c15AuthShapes))]
+			}
+			c15SetAuthShape(ae)
+			out.Linef("stat auth_error_shape_%s 1", strings.ReplaceAll(strings.SplitN(ae, ":", 2)[0], "-", "_"))
+		}
+		c.ae = ae
 		if c.fk != nil {
 			c15RunFake(t, out, fakes, *c.fk, ci, rnd)
 			out.Linef("nt")
@@ -1061,7 +1135,7 @@ func TestVerifC15(t *testing.T) {
 			out.Linef("stat rich_accessors_called %d", len(richStats))
 			out.Linef("stat rich_payload_bytes %d", len(p.want))
 		}
-		out.Linef("op send tr=%s enc=%s comp=%s sig=%s items=%d out=%s auth=%s", c.tr, c.enc, c.comp, c.sig, c.items, c.out.token(), c.auth)
+		out.Linef("op send tr=%s enc=%s comp=%s sig=%s items=%d out=%s auth=%s ae=%s", c.tr, c.enc, c.comp, c.sig, c.items, c.out.token(), c.auth, c.ae)
 		// 1. what is on the wire (plain client, no compression)
 		before, _ := r.sink.snapshot()
 		if c.tr == "grpc" {
@@ -1219,7 +1293,7 @@ func c15Raw(out *vOut, r *c15Recv, c c15Case, good bool, rnd interface{ IntN(int
 	if c.tr == "grpc" {
 		mk = c.kind // the gRPC stages have their own vocabulary in the model
 	}
-	out.Linef("op raw tr=%s kind=%s auth=%s out=%s how=%s", c.tr, mk, c.auth, c.out.token(), c.kind)
+	out.Linef("op raw tr=%s kind=%s auth=%s out=%s how=%s ae=%s", c.tr, mk, c.auth, c.out.token(), c.kind, c.ae)
 	before, _ := r.sink.snapshot()
 	if c.tr == "grpc" {
 		body := p.pb
